@@ -95,124 +95,143 @@ func runRaw(c *hk.Ctx, cfg hk.SrvCfg, plans []*plan) {
 			hdr[k] = v
 		}
 		body := canonS(map[string]any{"jsonrpc": "2.0", "id": reqID, "method": "tools/call", "params": map[string]any{"name": toolName, "arguments": map[string]any{"nonce": pl.Nonce}}})
-		r := f.Post(hdr, body)
-		in := planSummary(cfg, nil, pl)
-		delete(in, "handlers")
-		delete(in, "viaRawHook")
-		in["request"] = fmt.Sprintf("POST tools/call id=%d Accept=%s", reqID, hdr["Accept"])
-		isSSE := strings.Contains(r.Header.Get("Content-Type"), "text/event-stream")
-		wantSSE := cfg.PostSSE && acceptSSE
-		if r.Status != 200 || isSSE != wantSSE {
-			c.Violate(hk.Violation{Fingerprint: "incall:raw:unexpected-response-mode", What: "status / content type of the answer", Input: in,
-				Observed: map[string]any{"status": r.Status, "contentType": r.Header.Get("Content-Type"), "body": trunc(string(r.Body), 200)}})
-			continue
-		}
-		var frames []any
-		var ids []string
-		if isSSE {
-			for _, ev := range parseSSE(r.Body) {
-				var v any
-				if err := json.Unmarshal([]byte(ev.Data), &v); err != nil {
-					c.Violate(hk.Violation{Fingerprint: "incall:raw:frame-not-json", What: "an event's data is not one JSON text", Input: in, Observed: trunc(ev.Data, 300)})
-					v = "<not json>"
-				}
-				frames = append(frames, v)
-				ids = append(ids, ev.ID)
-			}
-		} else {
+		rawJudge(c, "", cfg, envTag, pl, reqID, hdr["Accept"], f.Post(hdr, body), nil)
+	}
+}
+
+// rawJudge: the oracles and model lines for one answered POST tools/call of the raw peer.  scen (e.g.
+// "slow-handler:pause>=10s") only makes the fingerprints of the frame oracles specific; extra: fields added to the
+// op lines that the model does not read.
+func rawJudge(c *hk.Ctx, scen string, cfg hk.SrvCfg, envTag string, pl *plan, reqID int, accept string, r hk.RawResp, extra map[string]any) {
+	acceptSSE := strings.Contains(accept, "text/event-stream")
+	in := planSummary(cfg, nil, pl)
+	delete(in, "handlers")
+	delete(in, "viaRawHook")
+	in["request"] = fmt.Sprintf("POST tools/call id=%d Accept=%s", reqID, accept)
+	isSSE := strings.Contains(r.Header.Get("Content-Type"), "text/event-stream")
+	wantSSE := cfg.PostSSE && acceptSSE
+	if r.Status == 200 && r.Err != nil {
+		// the status line came, the body did not end properly (connection cut / no end within the ceiling): what was read is judged below
+		c.Violate(hk.Violation{Fingerprint: fpOf("raw", scen, "stream-aborted"), What: "the response body ended with a read error instead of its proper end", Input: in,
+			Observed: map[string]any{"error": trunc(r.Err.Error(), 300), "bytesRead": len(r.Body)}})
+	}
+	if r.Status != 200 || isSSE != wantSSE {
+		c.Violate(hk.Violation{Fingerprint: fpOf("raw", scen, "unexpected-response-mode"), What: "status / content type of the answer", Input: in,
+			Observed: map[string]any{"status": r.Status, "contentType": r.Header.Get("Content-Type"), "body": trunc(string(r.Body), 200), "error": fmt.Sprint(r.Err)}})
+		return
+	}
+	var frames []any
+	var ids []string
+	if isSSE {
+		for _, ev := range parseSSE(r.Body) {
 			var v any
-			if err := json.Unmarshal(r.Body, &v); err != nil {
-				c.Violate(hk.Violation{Fingerprint: "incall:raw:body-not-json", What: "the JSON-mode body is not JSON", Input: in, Observed: trunc(string(r.Body), 300)})
+			if err := json.Unmarshal([]byte(ev.Data), &v); err != nil {
+				c.Violate(hk.Violation{Fingerprint: fpOf("raw", scen, "frame-not-json"), What: "an event's data is not one JSON text", Input: in, Observed: trunc(ev.Data, 300)})
+				v = "<not json>"
 			}
 			frames = append(frames, v)
+			ids = append(ids, ev.ID)
 		}
-		// ---- oracle: the stream carries every emitted notification, in order, then the answer (model-free)
-		wantN := 1
+	} else {
+		var v any
+		if err := json.Unmarshal(r.Body, &v); err != nil {
+			c.Violate(hk.Violation{Fingerprint: fpOf("raw", scen, "body-not-json"), What: "the JSON-mode body is not JSON", Input: in, Observed: trunc(string(r.Body), 300)})
+		}
+		frames = append(frames, v)
+	}
+	// ---- oracle: the stream carries every emitted notification, in order, then the answer (model-free)
+	wantN := 1
+	if isSSE {
+		wantN = len(pl.Emits) + 1
+	}
+	if len(frames) != wantN {
+		c.Violate(hk.Violation{Fingerprint: fpOf("raw", scen, "frame-count"), What: "number of events on the stream differs from notifications + answer", Input: in,
+			Observed: len(frames), Expected: wantN})
+	} else {
 		if isSSE {
-			wantN = len(pl.Emits) + 1
-		}
-		if len(frames) != wantN {
-			c.Violate(hk.Violation{Fingerprint: "incall:raw:frame-count", What: "number of events on the stream differs from notifications + answer", Input: in,
-				Observed: len(frames), Expected: wantN})
-		} else {
-			if isSSE {
-				for k, e := range pl.Emits {
-					m, _ := frames[k].(map[string]any)
-					params, _ := m["params"].(map[string]any)
-					_, seq := whose(map[string]any{"extra": params})
-					if m == nil || m["method"] != e.Method || seq != k || m["id"] != nil {
-						c.Violate(hk.Violation{Fingerprint: "incall:raw:frame-order", What: "the k-th event is not the k-th emitted notification", Input: in,
-							Observed: map[string]any{"k": k, "frame": truncAny(frames[k])}})
-						break
-					}
+			for k, e := range pl.Emits {
+				m, _ := frames[k].(map[string]any)
+				params, _ := m["params"].(map[string]any)
+				_, seq := whose(map[string]any{"extra": params})
+				if m == nil || m["method"] != e.Method || seq != k || m["id"] != nil {
+					c.Violate(hk.Violation{Fingerprint: fpOf("raw", scen, "frame-order"), What: "the k-th event is not the k-th emitted notification", Input: in,
+						Observed: map[string]any{"k": k, "frame": truncAny(frames[k])}})
+					break
 				}
-			}
-			last, _ := frames[len(frames)-1].(map[string]any)
-			if last == nil || canonS(last["id"]) != strconv.Itoa(reqID) || (last["result"] == nil) == !pl.Fail {
-				c.Violate(hk.Violation{Fingerprint: "incall:raw:answer-not-last", What: "the last event is not the answer to the request", Input: in, Observed: truncAny(frames[len(frames)-1])})
 			}
 		}
-		tags := []string{envTag, burstClass(len(pl.Emits))}
-		// ---- oracle: ids on one stream are pairwise distinct
-		if isSSE {
-			tags = append(tags, "raw:stream")
-			seenID := map[string]int{}
-			var ms []any
-			var ctrs []int64
-			wellFormed := true
-			for k, id := range ids {
-				if j, dup := seenID[id]; dup {
-					c.Violate(hk.Violation{Fingerprint: "incall:event-ids:duplicate-on-one-stream",
-						What:  "two events of one POST-SSE stream carry the same id",
-						Input: in, Observed: map[string]any{"id": id, "events": []int{j, k}, "ids": trunc(canonS(ids), 300)}})
-					tags = append(tags, "raw:duplicate-id")
-				}
-				seenID[id] = k
-				m := evtRe.FindStringSubmatch(id)
-				if m == nil {
-					wellFormed = false
-					c.Violate(hk.Violation{Fingerprint: "incall:event-ids:malformed", What: "an event id is not evt-<ms>-<counter>", Input: in, Observed: id})
-					continue
-				}
-				t, _ := strconv.ParseInt(m[1], 10, 64)
-				ms = append(ms, t)
-				ct, _ := strconv.ParseInt(m[2], 10, 64)
-				ctrs = append(ctrs, ct)
-			}
-			// the counters of one stream: 1..n+1 (one writer object) or 1..n, 1 (sender and responder count separately)
-			if wellFormed {
-				one, two := true, true
-				for k, ct := range ctrs {
-					if ct != int64(k+1) {
-						one = false
-					}
-					if (k < len(ctrs)-1 && ct != int64(k+1)) || (k == len(ctrs)-1 && ct != 1) {
-						two = false
-					}
-				}
-				if !one && !two {
-					c.Violate(hk.Violation{Fingerprint: "incall:event-ids:counter-not-increasing", What: "the event counters of one stream are neither 1..n+1 nor 1..n,1",
-						Input: in, Observed: trunc(canonS(ids), 300)})
-				}
-			}
-			if wellFormed && len(ids) > 0 {
-				c.Emit(map[string]any{"c": "incall.ids", "ms": ms}, map[string]any{"ids": ids}, len(ids) > 1, tags...)
-			}
-		} else {
-			tags = append(tags, "raw:json-body")
-		}
-		// ---- T-diff: the frames against the model's serverFrames
-		if pl.Bytes <= modelLimit {
-			var answer map[string]any
-			if pl.Fail {
-				answer = map[string]any{"err": map[string]any{"code": -32603, "message": "tool execution failed (tool: " + toolName + "): " + pl.Text}}
-			} else {
-				answer = map[string]any{"ok": map[string]any{"content": []any{map[string]any{"type": "text", "text": pl.Text}}}}
-			}
-			c.Emit(map[string]any{"c": "incall.frames", "sse": isSSE, "reqId": reqID, "emits": pl.emitOps(), "answer": answer},
-				map[string]any{"frames": frames}, len(frames) > 1, tags...)
-		} else {
-			c.Count("raw-big:"+pl.Nonce, true, nil, append(tags, "oracle-only(big)")...)
+		last, _ := frames[len(frames)-1].(map[string]any)
+		if last == nil || canonS(last["id"]) != strconv.Itoa(reqID) || (last["result"] == nil) == !pl.Fail {
+			c.Violate(hk.Violation{Fingerprint: fpOf("raw", scen, "answer-not-last"), What: "the last event is not the answer to the request", Input: in, Observed: truncAny(frames[len(frames)-1])})
 		}
 	}
+	tags := []string{envTag, burstClass(len(pl.Emits))}
+	// ---- oracle: ids on one stream are pairwise distinct
+	if isSSE {
+		tags = append(tags, "raw:stream")
+		seenID := map[string]int{}
+		var ms []any
+		var ctrs []int64
+		wellFormed := true
+		for k, id := range ids {
+			if j, dup := seenID[id]; dup {
+				c.Violate(hk.Violation{Fingerprint: "incall:event-ids:duplicate-on-one-stream",
+					What:  "two events of one POST-SSE stream carry the same id",
+					Input: in, Observed: map[string]any{"id": id, "events": []int{j, k}, "ids": trunc(canonS(ids), 300)}})
+				tags = append(tags, "raw:duplicate-id")
+			}
+			seenID[id] = k
+			m := evtRe.FindStringSubmatch(id)
+			if m == nil {
+				wellFormed = false
+				c.Violate(hk.Violation{Fingerprint: "incall:event-ids:malformed", What: "an event id is not evt-<ms>-<counter>", Input: in, Observed: id})
+				continue
+			}
+			t, _ := strconv.ParseInt(m[1], 10, 64)
+			ms = append(ms, t)
+			ct, _ := strconv.ParseInt(m[2], 10, 64)
+			ctrs = append(ctrs, ct)
+		}
+		// the counters of one stream: 1..n+1 (one writer object) or 1..n, 1 (sender and responder count separately)
+		if wellFormed {
+			one, two := true, true
+			for k, ct := range ctrs {
+				if ct != int64(k+1) {
+					one = false
+				}
+				if (k < len(ctrs)-1 && ct != int64(k+1)) || (k == len(ctrs)-1 && ct != 1) {
+					two = false
+				}
+			}
+			if !one && !two {
+				c.Violate(hk.Violation{Fingerprint: "incall:event-ids:counter-not-increasing", What: "the event counters of one stream are neither 1..n+1 nor 1..n,1",
+					Input: in, Observed: trunc(canonS(ids), 300)})
+			}
+		}
+		if wellFormed && len(ids) > 0 {
+			c.Emit(withExtra(map[string]any{"c": "incall.ids", "ms": ms}, extra), map[string]any{"ids": ids}, len(ids) > 1, tags...)
+		}
+	} else {
+		tags = append(tags, "raw:json-body")
+	}
+	// ---- T-diff: the frames against the model's serverFrames
+	if pl.Bytes <= modelLimit {
+		var answer map[string]any
+		if pl.Fail {
+			answer = map[string]any{"err": map[string]any{"code": -32603, "message": "tool execution failed (tool: " + toolName + "): " + pl.Text}}
+		} else {
+			answer = map[string]any{"ok": map[string]any{"content": []any{map[string]any{"type": "text", "text": pl.Text}}}}
+		}
+		c.Emit(withExtra(map[string]any{"c": "incall.frames", "sse": isSSE, "reqId": reqID, "emits": pl.emitOps(), "answer": answer}, extra),
+			map[string]any{"frames": frames}, len(frames) > 1, tags...)
+	} else {
+		c.Count("raw-big:"+pl.Nonce, true, nil, append(tags, "oracle-only(big)")...)
+	}
+}
+
+func withExtra(op, extra map[string]any) map[string]any {
+	for k, v := range extra {
+		op[k] = v
+	}
+	return op
 }
